@@ -66,10 +66,11 @@ PROPS = {
                        "from the same slice with order-preserving adaptors, word id = row index, "
                        "homographs are appended to the surface's id list.",
         "level_text": "Static structural rules: column k lands in the right WordParam field, "
-                      "rows stay aligned across map/params/features, homographs are kept. The "
-                      "byte accounting of the feature span, quoting and EOF/blank-line variants "
-                      "are value-level behaviour of the csv-core state machine and are NOT "
-                      "decided.",
+                      "rows stay aligned across map/params/features, homographs are kept; the "
+                      "feature span starts and is measured at the reader's own positions and the "
+                      "end of the input at a row start is not taken for a row (FEATSPAN). Quoting "
+                      "and the terminator arithmetic (len - 1, CRLF) are value-level behaviour of "
+                      "the csv-core state machine and are NOT decided.",
         "level_note": "Trusted: rustc MIR; csv-core; spec/kinds.json.",
         "technique": "column-to-field dataflow rule, iterator-chain shape rules, kind propagation",
     },
